@@ -5,6 +5,7 @@ import TrustVerif.Model.C03
 import TrustVerif.Drv.Common
 import TrustVerif.Drv.StParse
 import TrustVerif.Model.StExtCheck
+import TrustVerif.Model.StArray
 import TrustVerif.Drv.StExtParse
 
 /-
@@ -28,6 +29,15 @@ are evaluated on what the implementation did (pass 2):
   obs <outcome> frames=<n> <slot>=<Tag>:<v> …   -> m seen     (the observation is in the op line)
   obst <outcome> frames=<n> <slot>=<Tag>:<v> …  -> m seen     (judged by C03 only: histories in
                                             which the environment writes ill-typed process-image values)
+  aoff <n> <lo1> <hi1> … <lon> <hin> <s1> … <sn>   -> m ok <offset> | m IndexOutOfBounds:<idx>:<lo>:<hi>
+                                            `array_offset` (Model/StArray.lean, proved to be row-major
+                                            addressing): the position of element [s1,…,sn] in the
+                                            array value, observed by writing a marker through the
+                                            subscripts and looking where it landed
+  oexp <outcome|*> <slot>=<Tag>:<v> …       what the generator of the stream expects of the NEXT
+                                            observation (outcome and the listed slots), computed by
+                                            the generator's own straight-line evaluation of the
+                                            program it wrote: the C02 judgement of the stream
 
 `driver c01`         (pass 1) prints the model's answers (`m …`) for the correspondence diff.
 `driver c01 oracle`  (pass 2) reads the `impl` lines and evaluates the three properties' own
@@ -66,7 +76,10 @@ structure Case where
   bad : Bool := false
   /-- oracle-only cases: declared tags and observations (reversed while reading) -/
   odecls : List (String × String) := []
-  obs : List (Bool × String) := []        -- (judged by C01 too, observation)
+  obs : List (Bool × String × Option String) := []   -- (judged by C01 too, observation, expectation)
+  oexp : Option String := none
+  /-- `aoff` operations: the model's answer and (pass 2) the implementation's -/
+  aoffs : List (String × Option String) := []
   /-- operations in file order (reversed while reading), for pass 1: true = check, false = cycle -/
   ops : List Bool := []
   lastOp : Option Bool := none
@@ -134,8 +147,23 @@ def readLine (c : Case) (line : String) : Case :=
       | some b => { c with xbody := some b }
       | none => { c with bad := true }
   | ["odecl", slot, tag] => { c with odecls := (slot, tag) :: c.odecls }
-  | "obs" :: rest => { c with obs := (true, joinWith " " rest) :: c.obs, lastOp := none }
-  | "obst" :: rest => { c with obs := (false, joinWith " " rest) :: c.obs, lastOp := none }
+  | "aoff" :: nd :: rest =>
+    let ans : String :=
+      match nd.toNat?, rest.mapM String.toInt? with
+      | some n, some xs =>
+        if xs.length ≠ 3 * n then "bad-op" else
+        let bounds := xs.take (2 * n)
+        let subs := xs.drop (2 * n)
+        let dims : List (Int × Int) := (List.range n).map fun j => (bounds.getD (2 * j) 0, bounds.getD (2 * j + 1) 0)
+        match StArray.arrayOffset dims subs with
+        | .ok off => s!"ok {off}"
+        | .error (.outOfBounds i lo hi) => s!"IndexOutOfBounds:{i}:{lo}:{hi}"
+        | .error .typeMismatch => "TypeMismatch"
+      | _, _ => "bad-op"
+    { c with aoffs := (ans, none) :: c.aoffs, lastOp := none }
+  | "oexp" :: rest => { c with oexp := some (joinWith " " rest) }
+  | "obs" :: rest => { c with obs := (true, joinWith " " rest, c.oexp) :: c.obs, oexp := none, lastOp := none }
+  | "obst" :: rest => { c with obs := (false, joinWith " " rest, c.oexp) :: c.obs, oexp := none, lastOp := none }
   | ["check"] => { c with ops := true :: c.ops, lastOp := some true }
   | ["set", name, val] =>
     match parseVal? val with
@@ -151,7 +179,10 @@ def readLine (c : Case) (line : String) : Case :=
       match c.steps with
       | s :: ss => { c with steps := { s with impl := some (joinWith " " rest) } :: ss, lastOp := none }
       | [] => { c with bad := true }
-    | none => if c.obs.isEmpty then { c with bad := true } else c
+    | none =>
+      match c.aoffs with
+      | (m, none) :: more => { c with aoffs := (m, some (joinWith " " rest)) :: more }
+      | _ => if c.obs.isEmpty then { c with bad := true } else c
   | _ => { c with bad := true }
 
 def applySets (rs : RunState) (sets : List (String × Val)) : RunState :=
@@ -182,6 +213,7 @@ def emitModel (accepted : Bool) (ops : List Bool) (outs : List (CycleOut × Env 
     | [] => "bad-op" :: emitModel accepted rest []
 
 def modelPass (c : Case) : List String :=
+  if !c.aoffs.isEmpty then c.aoffs.reverse.map (fun a => if a.1 = "bad-op" then "bad-op" else "m " ++ a.1) else
   if !c.obs.isEmpty then (if c.bad then c.obs.map fun _ => "bad-op" else c.obs.map fun _ => "m seen") else
   match c.xprogram with
   | some xp =>
@@ -393,9 +425,9 @@ def c03Obs (odecls : List (String × String)) (slots : List (String × String ×
 def oraclePassObs (c : Case) : String :=
   if c.bad then s!"o {c.n} bad-op" else
   let head := s!"o {c.n} acc=1 strict=0 spec=0"
-  let rec go (prev : Bool) : List (Bool × String) → List (String × String)
+  let rec go (prev : Bool) : List (Bool × String × Option String) → List (String × String × String)
     | [] => []
-    | (j01, o) :: rest =>
+    | (j01, o, ex) :: rest =>
       match words o with
       | outcome :: fr :: vars =>
         let frames := match fr.splitOn "=" with
@@ -403,18 +435,43 @@ def oraclePassObs (c : Case) : String :=
           | _ => none
         let slots := vars.map parseOSlot
         match frames with
-        | none => [("bad-obs", "bad-obs")]
+        | none => [("bad-obs", "bad-obs", "bad-obs")]
         | some f =>
-          if slots.any Option.isNone then [("bad-obs", "bad-obs")] else
+          if slots.any Option.isNone then [("bad-obs", "bad-obs", "bad-obs")] else
           let ic : ImplCycle := { outcome := outcome, frames := f, env := [], otherTags := false }
-          ((if j01 then c01Cycle ic prev none else "ok"), c03Obs c.odecls.reverse (slots.filterMap id))
+          let got := slots.filterMap id
+          let c02 : String :=
+            match ex with
+            | none => "ok"
+            | some e =>
+              match words e with
+              | eo :: evs =>
+                if eo ≠ "*" ∧ eo ≠ outcome then s!"expected-outcome:{eo}:{outcome}"
+                else
+                  let bad := evs.findSome? fun w =>
+                    match parseOSlot w with
+                    | none => some "bad-oexp"
+                    | some (x, t, v) =>
+                      match got.find? (fun s => s.1 = x) with
+                      | some (_, t', v') => if t = t' ∧ v = v' then none else some s!"expected-value:{x}"
+                      | none => some s!"expected-missing:{x}"
+                  bad.getD "ok"
+              | [] => "bad-oexp"
+          ((if j01 then c01Cycle ic prev none else "ok"), c02, c03Obs c.odecls.reverse got)
             :: go (prev || (outcome ≠ "ok")) rest
-      | _ => [("bad-obs", "bad-obs")]
+      | _ => [("bad-obs", "bad-obs", "bad-obs")]
   let rs := go false c.obs.reverse
   let dress (s : String) := if s = "ok" then s else "unmodelled:" ++ s
-  s!"{head} c01={dress (firstNotOk (rs.map (·.1)))} c02=na c03={dress (firstNotOk (rs.map (·.2)))}"
+  let c02 := firstNotOk (rs.map (·.2.1))
+  let c02 := if c02 = "ok" ∧ rs.all (fun _ => true) ∧ c.obs.all (fun o => o.2.2.isNone) then "na" else c02
+  s!"{head} c01={dress (firstNotOk (rs.map (·.1)))} c02={if c02 = "na" then c02 else dress c02} c03={dress (firstNotOk (rs.map (·.2.2)))}"
 
 def oraclePass (c : Case) : String :=
+  if !c.aoffs.isEmpty then
+    -- the Lean function is proved to be the row-major reference: a difference is a C02 failure
+    let bad := c.aoffs.any fun (m, i) => i != some m
+    s!"o {c.n} acc=1 strict=0 spec=0 c01=ok c02={if bad then "unmodelled:array-offset" else "ok"} c03=ok"
+  else
   if !c.obs.isEmpty then oraclePassObs c else
   match c.xprogram with
   | some xp => oraclePassX c xp
